@@ -348,6 +348,7 @@ func runC01(c *Ctx) {
 	c.R.Notes = append(c.R.Notes, fmt.Sprintf("+payloads %.1fs", time.Since(t0).Seconds()))
 	c.c01Fixtures()
 	c.R.Notes = append(c.R.Notes, fmt.Sprintf("+fixtures %.1fs", time.Since(t0).Seconds()))
+	c.overlapMergeProbe("C01")
 }
 
 func replayC01(c *Ctx, f Failure) {
